@@ -81,6 +81,9 @@ func (ca *ConnlistAnalyzer) ConnlistFromDirPath(dirPath string) ([]Peer2PeerConn
 	// instead of parsing the builder's string error to decide on error type (warning/error/fatal-err)
 	// return as fatal error if rList is empty or if stopOnError is on
 	// otherwise try to analyze and return as accumulated error
+	if len(errs) == 0 {
+		errs = nil // no errors from the builder
+	}
 	if errs != nil {
 		// TODO: consider avoid logging this error because it is already printed to log by the builder
 		if len(rList) == 0 || ca.stopOnError {
